@@ -89,15 +89,10 @@ Variable seg : fieldT -> list (@srow N) -> list (@vec N).
 Variable cyl1 : fieldT -> @crow N -> @vec N.       (* BHJM_magnet_cylinder is row-wise *)
 Let cyl := fun f rows => map (cyl1 f) rows.
 
-(* the result the property asks for on a full-angle row *)
-Definition full_cylinder_spec (fld : fieldT) (x : @srow N) : @vec N :=
-  let '(_, _, (r1, _, _, _, _)) := x in
-  if neqb N r1 (nofZ N 0) then cyl1 fld (outer_row x)
-  else vsub3 (cyl1 fld (outer_row x)) (cyl1 fld (inner_row x)).
 
 Theorem full_segment_is_cylinder_gen (fld : fieldT) (rows : list srow) i x :
   nth_error rows i = Some x -> mask_segment x = false ->
-  nth_error (seg_internal seg cyl fld rows) i = Some (full_cylinder_spec fld x).
+  nth_error (seg_internal seg cyl fld rows) i = Some (full_cylinder_spec cyl1 fld x).
 Proof.
   intros Hx Hm. unfold seg_internal.
   set (mask1 := map mask_segment rows).
